@@ -41,6 +41,9 @@ func typeStr(t types.Type) string {
 	if r, ok := t.(*RawMap); ok {
 		return r.String()
 	}
+	if b, ok := t.(*BytesVal); ok {
+		return b.String()
+	}
 	return types.TypeString(t, nil)
 }
 
@@ -62,6 +65,9 @@ func (r *RawMap) Underlying() types.Type { return r }
 func (r *RawMap) String() string         { return "mmap[" + typeStr(r.Key) + "," + typeStr(r.Elem) + "]" }
 
 func (p *Prelude) sortOf(t types.Type) string {
+	if _, ok := t.(*BytesVal); ok {
+		return "Bytes"
+	}
 	if r, ok := t.(*RawMap); ok {
 		return "(Array " + p.sortOf(r.Key) + " " + p.sortOf(r.Elem) + ")"
 	}
@@ -253,6 +259,11 @@ const basePrelude = `(set-option :print-success false)
 (declare-fun str_hassuffix (Str Str) Bool)
 (declare-datatypes ((Slice 0)) (((mk_slice (s_ref Int) (s_off Int) (s_len Int)))))
 (declare-fun idx (Slice Int) Int)
+(declare-sort Bytes 0)
+(declare-fun bcontent ((Array Int Int) Int Int) Bytes)
+(declare-fun blen (Bytes) Int)
+(declare-fun s2c (Str) Bytes)
+(declare-fun c2s (Bytes) Str)
 (assert (= (slen str_empty) 0))
 (assert (= (typeof inil) 0))
 `
